@@ -23,7 +23,8 @@ def declared (k : Nat × Nat) : Bool :=
   | _ => false
 
 def cfg : Cfg := { gcFirst := CelloGen.Thr.teardownGcFirst, consume := CelloGen.Exn.catchConsumes, maxDepth := CelloGen.Exn.maxDepth, scan := declared,
-                   foreignMark := CelloGen.Thr.threadMarkUnguarded }
+                   foreignMark := CelloGen.Thr.threadMarkUnguarded,
+                   joinIgnoresDeadlk := joinIgnoresDeadlkOf CelloGen.Thr.joinErr }
 
 def parseErrno : String → Option Errno
   | "0" => some .zero | "EINVAL" => some .einval | "EDEADLK" => some .edeadlk | "EBUSY" => some .ebusy
